@@ -36,7 +36,7 @@ struct StreamRunner {
     std::function<void(const StreamCase&, ShardCtl&)> body;
     std::function<void()> child_init;
     // results
-    uint64_t total = 0; uint64_t counters[NCOUNTERS] = {0}; std::set<uint64_t> classes; std::vector<std::string> failures; unsigned unconfirmed = 0; bool cut = false; double wall = 0; uint64_t suppressed = 0;
+    uint64_t total = 0; uint64_t counters[NCOUNTERS] = {0}; std::set<uint64_t> classes; std::vector<std::string> failures; unsigned unconfirmed = 0; bool cut = false; double wall = 0; uint64_t suppressed = 0; std::string first_meta, last_meta;
     std::string tag;   // unique suffix for scratch files (pid)
 
     void run_child(const std::vector<StreamCase> &b, size_t from, size_t only, ShardCtl *ctl, const std::string &failfile, const std::string &errfile) {
@@ -55,7 +55,7 @@ struct StreamRunner {
         std::vector<StreamCase> b; bool eof = false;
         while (!eof) {
             b.clear(); StreamCase c;
-            while (b.size() < batch) { if (!read_case(in, c)) { eof = true; break; } b.push_back(c); }
+            while (b.size() < batch) { if (!read_case(in, c)) { eof = true; break; } if (first_meta.empty()) first_meta = c.meta; last_meta = c.meta; b.push_back(c); }
             if (b.empty()) break;
             if (now_s() - t0 > deadline_s) { cut = true; break; }        // deadline: stop reading (the producer sees a closed pipe and exits)
             size_t from = 0;
@@ -119,6 +119,7 @@ inline int stream_main(int argc, char **argv, const char *name, std::function<vo
     JObj o; o.kv("sub", argval(argc, argv, "--sub", name)).kv("evaluations", (unsigned long long)r.total).kv("classes", (unsigned long long)r.classes.size()).kv("exhaustive", !r.cut)
         .kv("wall_s", r.wall).kv("failures", (unsigned long long)r.failures.size()).kv("failing_observations_same_kind_suppressed", (unsigned long long)r.suppressed).kv("unconfirmed_crashes", r.unconfirmed);
     JObj cn; for (size_t i = 0; i < counter_names.size() && i < NCOUNTERS; ++i) cn.kv(counter_names[i], (unsigned long long)r.counters[i]); o.raw("counters", cn.str());
+    JArr sm; if (!r.first_meta.empty()) sm.raw(r.first_meta); if (!r.last_meta.empty() && r.last_meta != r.first_meta) sm.raw(r.last_meta); o.raw("samples", sm.str());
     JArr cl; size_t k = 0; for (uint64_t h : r.classes) { if (k++ >= 20000) break; cl.raw(std::to_string(h)); } o.raw("class_hashes", cl.str());
     printf("RESULT %s\n", o.str().c_str());
     for (auto &f : r.failures) printf("FAIL %s\n", f.c_str());
